@@ -197,6 +197,11 @@ def _loop_exits(ix, loop):
         if k == "Try":
             c = H.callee(hq.peel(n["e"])) or ""
             tag += H.short(c)
+        from .. import booleval
+        try:
+            conds = booleval.simplify_conj(sorted(set(conds)))
+        except Exception:  # noqa: BLE001 — unparsable text stays as it is
+            pass
         exits.append("%s if %s" % (tag, " && ".join(sorted(set(conds))) or "always"))
     return sorted(exits)
 
